@@ -52,11 +52,19 @@ Definition contains (ss : list ssel) (n : string) : bool := existsb (contains_fi
 Definition id_helper : ssel := SanField "" "id" "id" 0 [].
 Definition typename_helper : ssel := SanField "" "__typename" "String" 0 [].
 
+(* selectionSetHasFieldNamed: on this level only *)
+Definition has_direct (ss : list ssel) (n : string) : bool :=
+  existsb (fun s => match s with SanField _ n' _ _ _ => n' =? n | SanFrag _ _ _ => false end) ss.
+(* isFragmentOnTypeContainsField: a fragment on that very type, on this level, selects the field (at any depth of fragments) *)
+Definition frag_has (ss : list ssel) (t n : string) : bool :=
+  existsb (fun s => match s with SanFrag c _ sub => (c =? t) && contains sub n | SanField _ _ _ _ _ => false end) ss.
+
 (* addScrubFieldsToSelectionSet(ctx, selectionSet, typename) -> selection set, names of the fields it added *)
 Definition add_scrub_fields (tm : tmap) (sc : sschema) (ss : list ssel) (t : string) : list ssel * list string :=
   let abstract := match kind_of sc t with KOther => false | _ => true end in
   let '(ss1, added1) :=
-    if abstract && negb (contains ss "__typename") then (typename_helper :: ss, ["__typename"]) else (ss, []) in
+    (* since fix: a __typename inside a fragment covers that fragment's type only, so only one selected on this level counts *)
+    if abstract && negb (has_direct ss "__typename") then (typename_helper :: ss, ["__typename"]) else (ss, []) in
   let is_node :=
     if abstract then
       match possible_of sc t with
@@ -93,12 +101,13 @@ Definition sanitize_iface (sc : sschema) (children : list ssel) (cond odef : str
   else fold_left (fun acc pt => add_to_result acc [SanFrag pt pt acc]) pts children.
 
 (* setMissingScrubFieldsForFieldSelectionSet *)
-Definition set_missing (sc : sschema) (ip : list string) (alias ty : string) (s : scrub) (added : list string) : scrub :=
+Definition set_missing (sc : sschema) (ip : list string) (alias ty : string) (sel : list ssel) (s : scrub) (added : list string) : scrub :=
   let path := ip ++ [alias] in
   fold_left (fun acc f =>
                match kind_of sc ty with
                | KOther => sc_set acc (path, ty, f)
-               | _ => fold_left (fun acc' pt => sc_set acc' (path, pt, f)) (possible_of sc ty) acc
+               | _ => (* objects of a type keep the field if the client selected it in the fragment on that type *)
+                      fold_left (fun acc' pt => sc_set acc' (path, pt, f)) (filter (fun pt => negb (frag_has sel pt f)) (possible_of sc ty)) acc
                end) added s.
 
 (* the closing loop of sanitizeSelectionSet: helpers the client selected himself on this level are not scrubbed *)
@@ -124,7 +133,7 @@ Fixpoint san_sel (tm : tmap) (sc : sschema) (ip : list string) (s : ssel) (acc :
           let sf := unset_level sub (ip ++ [a]) sf in
           let scr1 := sc_merge scr sf in
           let '(child', added) := add_scrub_fields tm sc child ty in
-          let scr2 := set_missing sc ip a ty scr1 added in
+          let scr2 := set_missing sc ip a ty child' scr1 added in
           (add_to_result result [SanField a n ty d child'], scr2)
       end
   | SanFrag c o sub =>
